@@ -337,7 +337,7 @@ End(timedout, pendA, pendB) ==
 EndAll ==
     /\ ended
     /\ \A m \in DOMAIN owner :
-         pol[m] \in {"+", "dedup"} =>
+         pol[m] \in {"+", "dedup", "once="} =>
             /\ Count(storedEver[Peer(owner[m])], m) = 1
             /\ m \in sentEver[owner[m]]
     /\ UNCHANGED vars
@@ -352,5 +352,5 @@ RejectNotTransferred == \A s \in Station : repRej[s] \cap framed[s] = {}
 DeferredStaysPending == \A s \in Station : repDef[s] \cap (repSent[s] \cup repRej[s]) = {}
 BlockBound == \A s \in Station : Len(block[s]) <= MaxBlock
 DedupExactlyOnce ==   \* with duplicate-suppressing handlers nothing is ever stored twice
-    \A s \in Station : \A m \in SeqSet(storedEver[s]) : pol[m] = "dedup" => Count(storedEver[s], m) = 1
+    \A s \in Station : \A m \in SeqSet(storedEver[s]) : pol[m] \in {"dedup", "once="} => Count(storedEver[s], m) = 1
 =============================================================================
